@@ -56,6 +56,10 @@ def expr(e, env):
             return env.table[d]
         if d in env.consts:
             return env.consts[d]
+        for pre, fresh in sorted(getattr(env, "refined", {}).items(), key=lambda kv: -len(kv[0])):
+            if d.startswith(pre + ".") and (env.locals.get(fresh), d[len(pre) + 1:]) in env.attrs:
+                f, ty = env.attrs[(env.locals[fresh], d[len(pre) + 1:])]
+                return f(fresh), ty
         head, _, path = d.partition(".")
         if head in env.locals and (env.locals[head], path) in env.attrs:
             f, ty = env.attrs[(env.locals[head], path)]
@@ -100,6 +104,8 @@ def expr(e, env):
     if isinstance(e, ast.Constant):
         if e.value is None:
             return "None", "NONE"
+        if isinstance(e.value, bytes):
+            return "[" + "; ".join(str(c) for c in e.value) + "]", "TEXT"
         if isinstance(e.value, bool):
             return ("true" if e.value else "false"), "B"
         if isinstance(e.value, int):
@@ -135,15 +141,45 @@ def expr(e, env):
                     fail(e, "operand types %s %s for %s" % (ta, tb, f))
                 return "(%s %s %s)" % (f, a, b), ty
         fail(e, "binary operator")
-    if isinstance(e, ast.BoolOp) and isinstance(e.op, ast.And) and len(e.values) == 2 and isinstance(e.values[0], ast.Compare) \
-            and isinstance(e.values[0].ops[0], ast.IsNot) and isinstance(e.values[0].left, ast.Name) \
-            and env.locals.get(e.values[0].left.id, "").startswith("OPT "):
-        x = e.values[0].left.id
-        saved = env.locals[x]
-        env.locals[x] = saved[4:]
-        inner = truthy(e.values[1], env)
-        env.locals[x] = saved
-        return "(match %s with Some %s => %s | None => false end)" % (x, x, inner), "B"
+    if isinstance(e, ast.BoolOp) and isinstance(e.op, ast.And) and any(
+            isinstance(v, ast.Compare) and isinstance(v.ops[0], ast.IsNot) and isinstance(v.comparators[0], ast.Constant) and v.comparators[0].value is None
+            for v in e.values):
+        # a and (X is not None) and b(X) ...  ->  a && match X with Some x => b(x) ... | None => false end
+        def chain(vals):
+            if not vals:
+                return "true"
+            v = vals[0]
+            if isinstance(v, ast.Compare) and isinstance(v.ops[0], ast.IsNot) and isinstance(v.comparators[0], ast.Constant) and v.comparators[0].value is None:
+                d = dotted(v.left)
+                t, ty = expr(v.left, env)
+                if d is None or not ty.startswith("OPT "):
+                    fail(v, "'is not None' on a non-optional")
+                fresh = "v_" + d.replace(".", "_")
+                saved_l, saved_t = dict(env.locals), dict(env.table)
+                env.locals[fresh] = ty[4:]
+                if d in env.locals:
+                    env.locals[d] = ty[4:]
+                    fresh = d
+                else:
+                    env.table[d] = (fresh, ty[4:])
+                    for (ty0, path), val in list(env.attrs.items()):
+                        pass
+                    env.refined = getattr(env, "refined", {})
+                    env.refined[d] = fresh
+                inner = chain(vals[1:])
+                env.locals, env.table = saved_l, saved_t
+                env.refined = {k: v2 for k, v2 in getattr(env, "refined", {}).items() if k != d}
+                return "(match %s with Some %s => %s | None => false end)" % (t, fresh, inner)
+            rest = chain(vals[1:])
+            return truthy(v, env) if rest == "true" else "(%s && %s)" % (truthy(v, env), rest)
+        return chain(list(e.values)), "B"
+    if isinstance(e, ast.BoolOp) and isinstance(e.op, ast.Or) and len(e.values) == 2:
+        a, ta = expr(e.values[0], env)
+        if ta == "OPT TEXT":
+            b, tb = expr(e.values[1], env)
+            if tb != ta:
+                fail(e, "'or' between different types")
+            return "(match %s with Some (c :: v) => Some (c :: v) | _ => %s end)" % (a, b), ta
     if isinstance(e, ast.BoolOp):
         parts = [truthy(v, env) for v in e.values]
         op = " && " if isinstance(e.op, ast.And) else " || "
@@ -163,6 +199,11 @@ def expr(e, env):
         if isinstance(op, (ast.In, ast.NotIn)) and dotted(e.comparators[0]) is not None and env.table.get(dotted(e.comparators[0]), ("", ""))[1] == "FMTS":
             t = "(gen_has_format %s)" % a
             return (t if isinstance(op, ast.In) else "(negb %s)" % t), "B"
+        if isinstance(op, (ast.In, ast.NotIn)) and not isinstance(e.comparators[0], ast.Tuple):
+            b, tb = expr(e.comparators[0], env)
+            if ta == "TEXT" and tb == "TEXT":
+                t = "(infix %s %s)" % (a, b)
+                return (t if isinstance(op, ast.In) else "(negb %s)" % t), "B"
         if isinstance(op, (ast.In, ast.NotIn)):
             if not isinstance(e.comparators[0], ast.Tuple):
                 fail(e, "'in' needs a literal tuple")
@@ -228,7 +269,8 @@ def always_returns(stmts):
 
 
 OPT_ANNOTATIONS = {"Optional[TCPMatch]": "OPT TMATCH", "Optional[HTTPRecord]": "OPT HTTPREC"}
-COQ_TYPES = {"LIST Z": "(list Z)", "FMT": "Z", "Z": "Z", "N": "N", "B": "bool", "MT": "mtype", "TCPREC": "tcp_rec", "MTUREC": "mtu_rec", "HTTPREC": "rec", "TMATCH": "(mtype * tcp_rec)"}
+COQ_TYPES_EXTRA = {}
+COQ_TYPES = {"TEXT": "text", "LIST Z": "(list Z)", "FMT": "Z", "Z": "Z", "N": "N", "B": "bool", "MT": "mtype", "TCPREC": "tcp_rec", "MTUREC": "mtu_rec", "HTTPREC": "rec", "TMATCH": "(mtype * tcp_rec)"}
 
 
 def coq_type(ty):
@@ -820,8 +862,45 @@ def gen_loops(repo, consts):
     return "\n".join(out)
 
 
+def gen_http(repo, consts):
+    out = []
+    f = find_function(ast.parse(open(os.path.join(repo, "pyp0f/fingerprint/http.py")).read()), "find_http_match")
+    calls = {"http_signatures_match": (2, lambda a, e: ("(rec_matches ver hs %s)" % a[0][0], "B")),
+             "database.iter_values": (2, lambda a, e: ("recs", "LIST HTTPREC"))}
+    attrs = {("HTTPREC", "signature"): (lambda b: b, "HTTPSIG"), ("HTTPREC", "is_generic"): (lambda b: "(is_generic (rc_label %s))" % b, "B"),
+             ("HTTPREC", "signature.expected_software"): (lambda b: "(match http_of %s with Some s => hs_software s | None => None end)" % b, "OPT TEXT")}
+    env = Env({"packet_signature": ("tt", "PSIG"), "HTTPRecord": ("tt", "CLS"), "direction": ("tt", "DIR")}, consts, calls, attrs)
+    out.append("Definition gen_find_http_match (ver : Z) (hs : list pkt_header) (recs : list rec) : option rec :=\n %s." % block(f.body, env, opt_ret("HTTPREC")))
+    # HTTP.software
+    f = find_function(ast.parse(open(os.path.join(repo, "pyp0f/net/layers/http/http.py")).read()), "software", cls="HTTP")
+    body = [s for s in f.body if not (isinstance(s, ast.Expr) and isinstance(s.value, ast.Constant))]
+    g = find_function(ast.parse(open(os.path.join(repo, "pyp0f/net/layers/http/http.py")).read()), "_get_header_value", cls="HTTP")
+    want = ("lower_name = name.lower()\nreturn next((header.value for header in self.headers if header.lower_name == lower_name), None)")
+    if "\n".join(ast.unparse(x) for x in g.body) != want:
+        fail(g, "_get_header_value is not 'first header whose lower-case name equals name.lower()'")
+    calls = {"self._get_header_value": (1, lambda a, e: ("(header_value (lower %s) hs)" % a[0][0], "OPT TEXT") if a[0][1] == "TEXT" else fail(e, "header name"))}
+    env = Env({}, consts, calls, {})
+    if len(body) != 1 or not isinstance(body[0], ast.Return):
+        fail(f, "software body")
+    t, ty = expr(body[0].value, env)
+    if ty != "OPT TEXT":
+        fail(f, "software type")
+    out.append("Definition gen_software (hs : list pkt_header) : option text :=\n  %s." % t)
+    # HTTPResult.__post_init__
+    f = find_function(ast.parse(open(os.path.join(repo, "pyp0f/fingerprint/results/http.py")).read()), "__post_init__", cls="HTTPResult")
+    body = [s for s in f.body if not (isinstance(s, ast.Expr) and isinstance(s.value, ast.Constant))]
+    if not (len(body) == 1 and isinstance(body[0], ast.Assign) and dotted(body[0].targets[0]) == "self.dishonest"):
+        fail(f, "HTTPResult.__post_init__ shape")
+    env = Env({"self.match": ("m", "OPT HTTPREC"), "self.packet_signature.software": ("(gen_software hs)", "OPT TEXT")}, consts, {}, attrs)
+    t, ty = expr(body[0].value, env)
+    if ty != "B":
+        fail(f, "dishonest type")
+    out.append("Definition gen_dishonest (m : option rec) (hs : list pkt_header) : bool :=\n  %s." % t)
+    return "\n".join(out)
+
+
 HEADER = """(* GENERATED by translate/py2coq.py from %s -- regenerated on every check run; do not edit. *)
-From PV Require Import Model.Prelude Model.Bits Model.Sig Model.Select Model.Mtu Model.Options.
+From PV Require Import Model.Prelude Model.Bits Model.Sig Model.Select Model.Mtu Model.Options Model.Text Model.SigParse Model.DbParse Model.HttpRead Model.HttpMatch.
 Definition wtype_eqb (a b : wtype) : bool :=
   match a, b with WNormal, WNormal | WAny, WAny | WMod, WMod | WMss, WMss | WMtu, WMtu => true | _, _ => false end.
 Definition mtype_eqb (a b : mtype) : bool :=
@@ -831,7 +910,7 @@ Definition mtype_eqb (a b : mtype) : bool :=
 
 def main(repo, out):
     consts = common_consts(repo)
-    parts = [HEADER % repo, gen_win_multi(repo, consts), gen_match(repo, consts), gen_round(repo, consts), gen_guess(repo, consts), gen_gates(repo, consts), gen_valid(repo, consts), gen_loops(repo, consts), gen_options(repo, consts)]
+    parts = [HEADER % repo, gen_win_multi(repo, consts), gen_match(repo, consts), gen_round(repo, consts), gen_guess(repo, consts), gen_gates(repo, consts), gen_valid(repo, consts), gen_loops(repo, consts), gen_options(repo, consts), gen_http(repo, consts)]
     open(out, "w").write("\n\n".join(parts) + "\n")
 
 
